@@ -307,6 +307,11 @@ def run(ctx):
             sp.append(dict(proc=proc, w=crng.range(1, 26), h=crng.range(1, 20), nc=nc, sub=crng.below(5),
                            q=crng.choice([30, 75, 95, 100]), rst=crng.choice([0, 0, 1, 2, 5, -1]),
                            seed=crng.below(1 << 30), jm=0, marks=[]))
+        # larger images so that >= 512 bytes per block are buffered: the decode_mcu_fast switch (model command s2)
+        nfast = ctx.n(3, 20)
+        for i in range(nfast):
+            sp.append(dict(proc=0, w=crng.range(48, 96), h=crng.range(40, 72), nc=crng.choice([1, 3]), sub=crng.below(5),
+                           q=crng.choice([98, 100]), rst=0, seed=crng.below(1 << 30), jm=0, marks=[], fast=True))
         lines = []
         for p_ in sp:
             lines += [gen_line(0, p_), "coef 0"]
@@ -317,6 +322,10 @@ def run(ctx):
                 continue
             hx = res[2 * i].split()[3]
             n = len(hx) // 2
+            if p_.get("fast"):
+                for pt in ("", "700 3000 100 2000", " ".join(str(crng.range(300, 2500)) for _ in range(12))):
+                    mcmds.append("s2 | %s | %s" % (hx, pt)); metas.append((p_, res[2 * i + 1], "fast-switch " + pt))
+                continue
             for pt in ("", "1 " * min(n, ctx.n(350, 1200)), " ".join(str(crng.range(0, 12)) for _ in range(60)) + " 5000"):
                 mcmds.append("s | %s | %s" % (hx, pt)); metas.append((p_, res[2 * i + 1], pt))
         t0 = time.time()
@@ -336,6 +345,77 @@ def run(ctx):
                                        "model decode_mcu units and jpeg_read_coefficients differ on %s partition [%s]: %s vs %s" % (
                                            gen_line(0, p_), pt[:40], ml, hl))
                 ctx.count("model-scan", 1, ("scan", ml, len(pt) > 0))
+
+    # ------------------------- AC refinement unit: model vs the real static decode_mcu_AC_refine (jdphuff.c)
+    if drv:
+        t0 = time.time()
+        rexe = ctx.cc("c09_refine", ["c09_refine.c"], "plain", libs=("jpeg",))
+        rr = core.SplitMix64(ctx.seed * 7331 + 9)
+        rlines, rmeta = [], []
+        for t in range(ctx.n(40, 400)):
+            lens = [0]
+            while len(lens) < 33:                      # random prefix code over the 32 legal refinement symbols, one code unused
+                i = rr.below(len(lens))
+                if lens[i] >= 15:
+                    continue
+                l = lens.pop(i)
+                lens += [l + 1, l + 1]
+            lens = sorted(lens)[:-1]
+            vals = rr.shuffle([(r_ << 4) | s_ for r_ in range(16) for s_ in (0, 1)])
+            bits = [lens.count(l) for l in range(1, 17)]
+            al = rr.choice([0, 1, 2, 3]); ss = rr.choice([1, 1, 2, 6]); se = max(ss, rr.choice([63, 63, 5, 20]))
+            nb = rr.range(1, 6); eob = rr.choice([0, 0, 0, 1, 3])
+            coefs = []
+            for b_ in range(nb):
+                dens = rr.choice([0, 10, 50, 90, 100])
+                for k in range(64):
+                    if rr.below(100) < dens:
+                        m = rr.range(1, 40) << (al + 1)
+                        coefs.append(m if rr.chance(1, 2) else -m)
+                    else:
+                        coefs.append(0)
+            data = bytearray()
+            for _ in range(rr.range(3, 70)):
+                x = rr.below(256)
+                data.append(x)
+                if x == 255:
+                    data.append(0)
+            data += b"\xff\xd9"
+            head = "r %d %d %d %d %d | %s | %s | %s | %s" % (ss, se, al, eob, nb, " ".join(map(str, bits)), " ".join(map(str, vals)),
+                                                          " ".join(map(str, coefs)), data.hex())
+            for pt in ("", "1 " * len(data), " ".join(str(rr.range(0, 9)) for _ in range(40)), "%d" % rr.range(1, len(data))):
+                rlines.append(head + " | " + pt); rmeta.append((t, pt))
+        inp = ("\n".join(rlines) + "\n").encode()
+        rc1, o1, e1 = sh2([rexe], input=inp, timeout=600)
+        rc2, o2, e2 = sh2([drv], input=inp, timeout=600)
+        a, b = o1.decode().split("\n"), o2.decode().split("\n")
+        if rc1 != 0 or len(a) < len(rlines):
+            ctx.violation("decode_mcu_AC_refine unit harness crashed (rc=%d): %s" % (rc1, e1[-200:]),
+                          {"kind": "refine", "case": rlines[min(len(a), len(rlines)) - 1]}, signature="crash:refine")
+        elif rc2 != 0 or len(b) < len(rlines):
+            ctx.broken_tie("model-driver", "extracted refine model failed: rc=%d %s" % (rc2, e2[-200:]))
+        else:
+            ncorrupt = 0
+            for i, (t, pt) in enumerate(rmeta):
+                # property-level: the real unit under any partition = the real unit on the whole buffer
+                whole = a[i - (i % 4)]
+                if a[i] != whole:
+                    ctx.violation("decode_mcu_AC_refine: result depends on the chunking of its input (suspension undo): " + a[i][:80],
+                                  {"kind": "refine", "case": rlines[i], "whole": whole, "got": a[i]}, signature="refine-chunking")
+                total_sched += 1
+                if b[i] == "R corrupt":
+                    ncorrupt += 1
+                    continue
+                corr += 1
+                if a[i] != b[i]:
+                    disagree += 1
+                    if disagree <= 3:
+                        ctx.log("refine model/impl disagree", rlines[i][:60], a[i][:90], b[i][:90])
+                        ctx.broken_tie("correspondence:ac-refine", "model refine_unit and decode_mcu_AC_refine differ: %s || %s || %s" % (
+                            rlines[i][:200], a[i][:150], b[i][:150]))
+                ctx.count("model-refine", 1, ("refine", a[i][:120], len(pt) > 0))
+            ctx.cov["refine_cases_outside_model(corrupt)"] = ncorrupt
+        tm["model-refine"] = time.time() - t0
 
     # ---------------------------------------------------------------- encoder
     erng = core.SplitMix64(ctx.seed * 77 + 5)
@@ -440,6 +520,16 @@ def replay(ctx, exes, drv):
         ctx.count("replay-enc", 1, line)
         if not line.startswith("C ok"):
             ctx.violation("compressed bytes depend on the destination manager: " + line[:120], r, signature=r.get("signature"))
+        return
+    if r.get("kind") == "refine":
+        rexe = ctx.cc("c09_refine", ["c09_refine.c"], "plain", libs=("jpeg",))
+        whole = " | ".join(r["case"].split(" | ")[:5]) + " | "
+        rc, out, err = sh2([rexe], input=(whole + "\n" + r["case"] + "\n").encode(), timeout=60)
+        ls = out.decode().split("\n")
+        ctx.count("replay-refine", 1, tuple(ls[:2]))
+        if rc != 0 or len(ls) < 2 or ls[0] != ls[1]:
+            ctx.violation("decode_mcu_AC_refine: result depends on the chunking of its input", r, signature=r.get("signature"))
+        ctx.log("replay:", ls[0][:100], "||", ls[1][:100])
         return
     if r.get("kind") == "memdst":
         rc, res, err = Runner(ctx, exe, fl).run([r["cmd"]])
